@@ -3,7 +3,7 @@ import ast
 
 from ..core import AnalysisError, dotted, walk_no_nested, FuncTypes
 from ..cfg import CFG, cond_guards
-from ..util import calls_in, local_defs, depends_on, const_val, truth_under, names_in
+from ..util import calls_in, local_defs, depends_on, const_val, truth_under, names_in, param_names
 from .. import mergefacts as mf
 from .. import facts
 
@@ -24,6 +24,8 @@ def run(ctx):
     repo, cg = ctx.repo, ctx.cg
     ctx.rule('R11.1', 'every differ returns a builder result (validated()), [], or the result of another differ: ordering/duplicate refusal live in one place', floor=9)
     ctx.rule('R11.2', 'no empty nested patch: op_patch is reached only through the builders\' patch() under `if diff:`; push_patch_decision wraps only non-empty diffs', floor=4)
+    ctx.rule('R11.5', 'a nested list patch is keyed by the base index of the item its sub-diff was computed from', floor=2)
+    ctx.rule('R11.6', 'mapping diff entries are keyed by the iteration/lookup key itself, never by a transformed copy', floor=8)
     ctx.rule('R11.3', 'patches descend only into containers: recursion guarded by not is_atomic (and same type for dict values); is_atomic falls back to "not str/list/dict"', floor=3)
     ctx.rule('R11.4', 'ops emitted by the differs are the schema\'s oneOf list; output differ re-appends through a builder and its data key cannot collide', floor=3)
 
@@ -104,6 +106,58 @@ def run(ctx):
             ok = isinstance(par, ast.IfExp) and dotted(par.test) == dotted(c.args[1])
             ctx.inst('R11.2', mf.DEC + ':push_patch_decision', repo.norm(par if isinstance(par, ast.IfExp) else c), ok,
                      'wraps only a non-empty diff' if ok else 'an empty diff gets wrapped into a patch entry', c)
+    # ---------------------------------------------------------------- R11.5 a nested patch is keyed by the base index of the item it was computed from
+    for fid in ('nbdime.diffing.generic:diff_lists', 'nbdime.diffing.snakes:compute_diff_from_snakes'):
+        fn = repo.func(fid)
+        defs = local_defs(fn)
+        first = param_names(fn)[0]
+        for c in calls_in(fn, nested=False):
+            if isinstance(c.func, ast.Attribute) and c.func.attr == 'patch' and dotted(c.func.value) == 'di' and len(c.args) == 2:
+                key = c.args[0]
+                sub = c.args[1]
+                src = depends_on(fn, sub, lambda n: isinstance(n, ast.Call) and isinstance(n.func, ast.Name) and n.func.id == 'diffit', defs)
+                ok = False
+                why = 'patch payload does not come from the recursive differ'
+                if src is not None and src.args:
+                    aexpr = src.args[0]
+                    idx = None
+                    cands = [aexpr] + [v for v, k, s2 in defs.get(dotted(aexpr) or '', [])]
+                    for e in cands:
+                        if isinstance(e, ast.Subscript) and dotted(e.value) == first:
+                            idx = e.slice
+                    ok = idx is not None and ast.unparse(idx) == ast.unparse(key)
+                    why = 'the patch addresses the base item that was diffed (%s[%s])' % (first, ast.unparse(key)) if ok else \
+                        'patch key %s is not the index of the base item the sub-diff was computed from (%s[%s])' % (
+                            ast.unparse(key), first, ast.unparse(idx) if idx is not None else '?')
+                ctx.inst('R11.5', fid, repo.norm(c), ok, why, c)
+    # ---------------------------------------------------------------- R11.6 mapping entries are keyed by the key that was looked up
+    for fid, fn in sorted(repo.functions.items()):
+        if not fid.startswith('nbdime.diffing.') or fid not in reach:
+            continue
+        defs = None
+        for c in calls_in(fn, nested=False):
+            if not (isinstance(c.func, ast.Attribute) and c.func.attr in ('add', 'remove', 'replace', 'patch') and c.args):
+                continue
+            recv = dotted(c.func.value)
+            defs = defs or local_defs(fn)
+            is_map = recv == 'diffbuilder' or any(isinstance(v, ast.Call) and dotted(v.func) == 'MappingDiffBuilder' for v, k, s2 in defs.get(recv or '', []))
+            if not is_map:
+                continue
+            key = c.args[0]
+            if isinstance(key, ast.Constant):
+                continue        # fixed field name (checked by R11.4)
+            ok = False
+            why = 'key expression is not a plain name'
+            if isinstance(key, ast.Name):
+                kinds = {k for v, k, s2 in defs.get(key.id, [])}
+                is_param = key.id in param_names(fn)
+                # the same name must subscript the operands (a[key] / b[key]) or be the iteration variable over the key sets
+                ok = (kinds <= {'for'} and (kinds or is_param)) or (is_param and not kinds)
+                why = 'the entry is keyed by the very key used to look the values up' if ok else \
+                    'the entry key %r is a transformed value (%s), not the key of the mapping: the diff names a key the base may not have' % (
+                        key.id, '; '.join(ast.unparse(v)[:40] for v, k, s2 in defs.get(key.id, []) if k != 'for'))
+            ctx.inst('R11.6', fid, repo.norm(c), ok, why, c)
+
     # ---------------------------------------------------------------- R11.3
     for fid, need_type in (('nbdime.diffing.generic:diff_lists', False), ('nbdime.diffing.generic:diff_dicts', True)):
         fn = repo.func(fid)
